@@ -180,6 +180,13 @@ func tsaBehaviours() []tsaBehaviour {
 		})
 	}
 	// a valid chain with an authority clock that is off does not invalidate the token (the library does not compare genTime with its own clock)
+	// the caller gives up: its context is cancelled while the authority works / its deadline has passed (the body wires the context)
+	out = append(out, tsaBehaviour{name: "caller-cancels-while-the-authority-works", reply: func(w *tsaWorld, req *tspclient.Request, tokenOut *[]byte) netsim.Answer {
+		return netsim.Answer{Err: context.Canceled}
+	}})
+	out = append(out, tsaBehaviour{name: "caller-deadline-already-passed", reply: func(w *tsaWorld, req *tspclient.Request, tokenOut *[]byte) netsim.Answer {
+		return netsim.Answer{Err: context.DeadlineExceeded}
+	}})
 	out = append(out, tsaBehaviour{name: "garbage-body", reply: func(w *tsaWorld, req *tspclient.Request, tokenOut *[]byte) netsim.Answer {
 		return tsaReplyOK([]byte("not a timestamp response"))
 	}})
@@ -226,6 +233,17 @@ func c15Scenarios(tier mc.Tier) []mc.Scenario {
 				media, scheme, k := media, scheme, k
 				out = append(out, mc.Scenario{Name: fmt.Sprintf("C15-%s-%s-%s", mediaShort(media), scheme, kindOf(k)), Bound: -1, Body: func(c *mc.Ctx) { c15Body(c, media, scheme, k) },
 					Params: map[string]string{"format": media, "scheme": scheme, "key": k}})
+			}
+		}
+	}
+	if tier == mc.Quick {
+		// the other four key specs (each has its own hash for the imprint): the valid authorities only
+		for _, media := range []string{envenc.MediaJWS, envenc.MediaCOSE} {
+			for _, k := range []string{"p384-c", "p521-a", "rsa3072-a", "rsa4096-a"} {
+				media, k := media, k
+				out = append(out, mc.Scenario{Name: fmt.Sprintf("C15-%s-%s-%s-valid-authorities-only", mediaShort(media), envenc.SchemeX509, kindOf(k)), Bound: -1,
+					Body:   func(c *mc.Ctx) { c15BodyN(c, media, envenc.SchemeX509, k, 2) },
+					Params: map[string]string{"format": media, "scheme": envenc.SchemeX509, "key": k, "behaviours": "the two valid authorities"}})
 			}
 		}
 	}
@@ -282,14 +300,17 @@ func c15Prime(w *tsaWorld, media, keyName string) {
 	}
 }
 
-func c15Body(c *mc.Ctx, media, scheme, keyName string) {
+func c15Body(c *mc.Ctx, media, scheme, keyName string) { c15BodyN(c, media, scheme, keyName, len(c15Behaviours)) }
+
+// c15BodyN restricts the authority's behaviour to the first nBehaviours of the alphabet.
+func c15BodyN(c *mc.Ctx, media, scheme, keyName string, nBehaviours int) {
 	w := tsaGetWorld()
 	c15Prime(w, media, keyName)
 	useTS := c.ChooseFree("timestamper", 2) == 0 // 0 = set, 1 = nil
 	derive := c.ChooseFree("request-derived-with-WithContext", 2) == 1
 	bi := 0
 	if useTS && scheme == envenc.SchemeX509 {
-		bi = c.ChooseFree("tsa-behaviour", len(c15Behaviours))
+		bi = c.ChooseFree("tsa-behaviour", nBehaviours)
 	}
 	b := &c15Behaviours[bi]
 	// revocation validator: 0 none, 1 vector, 2 error, 3 wrong length, 4 empty
@@ -310,6 +331,7 @@ func c15Body(c *mc.Ctx, media, scheme, keyName string) {
 	}
 	var tsaReqs []*tspclient.Request
 	var issued []byte
+	var cancelReq context.CancelFunc
 	tr := &netsim.Transport{}
 	tr.Handler = func(r *netsim.Request, raw *http.Request) netsim.Answer {
 		var req tspclient.Request
@@ -318,6 +340,9 @@ func c15Body(c *mc.Ctx, media, scheme, keyName string) {
 			return netsim.Answer{Status: 400}
 		}
 		tsaReqs = append(tsaReqs, &req)
+		if b.name == "caller-cancels-while-the-authority-works" && cancelReq != nil {
+			cancelReq()
+		}
 		return b.reply(w, &req, &issued)
 	}
 	chain := chainFor(keyName)
@@ -390,6 +415,17 @@ func c15Body(c *mc.Ctx, media, scheme, keyName string) {
 	if derive {
 		// the request handed to Sign is a copy made by WithContext: every field must survive the copy
 		req = req.WithContext(context.WithValue(context.Background(), callerKey{}, 1))
+	}
+	switch b.name {
+	case "caller-cancels-while-the-authority-works":
+		ctx, cancel := context.WithCancel(context.Background())
+		cancelReq = cancel
+		defer cancel()
+		req = req.WithContext(ctx)
+	case "caller-deadline-already-passed":
+		ctx, cancel := context.WithDeadline(context.Background(), time.Now().Add(-time.Hour))
+		defer cancel()
+		req = req.WithContext(ctx)
 	}
 	env, serr, pan := doSign(media, req)
 	c.Tracef("%s %s key=%s timestamper=%v behaviour=%s validator-mode=%d vector=%v -> err=%v bytes=%d", media, scheme, keyName, useTS, b.name, vmode, vec, serr, len(env))
